@@ -76,6 +76,10 @@ class World:
             mapping = {}
             if nv > 1 and any(o["map"]):
                 mapping = {vd[c]: DIMS[a - 1] for c, a in enumerate(o["map"])}
+                if (sum(o["shape"]) + o["map"][0]) % 2 == 0:
+                    # a mapping is a dictionary: the order in which its keys are written must not matter
+                    # (seeded change C12-1 looked components up by position in vdim_mapping.values())
+                    mapping = dict(reversed(list(mapping.items())))
             self.obj[oid] = self.df.Field(mesh, nvdim=nv, value=arr, valid=valid, vdims=vd, vdim_mapping=mapping)
         return self.obj[oid]
 
